@@ -228,27 +228,26 @@ class Exporter:
                 if non_place_holder_in_row:  # if the row contains just place holders due to an ommitted place holder, don't add it
                     rows.insert(0, row)
 
-            # now, export the signatures
-            node_signatures = None
+            # now, export the signatures: one row per kind of signature, with a null interpretation
+            # for the exported spines that do not need that kind
+            signature_kinds = []  # in order of first appearance
+            signatures_by_node = []  # one dictionary (kind -> exported signature) per exported spine
             for node in document.tree.stages[from_stage]:
-                node_signature_rows = []
-                for signature_node in node.last_signature_nodes.nodes.values():
+                header_type = self.compute_header_type(node)
+                if not (header_type is not None
+                        and header_type.encoding in options.spine_types
+                        and (options.spine_ids is None or header_type.spine_id in options.spine_ids)):
+                    continue  # this spine is not exported
+                node_signatures = {}
+                for signature_kind, signature_node in node.last_signature_nodes.nodes.items():
                     if not self.is_signature_cancelled(signature_node, node, from_stage, to_stage):
-                        node_signature_rows.append(self.export_token(signature_node, options))
-                if len(node_signature_rows) > 0:
-                    if not node_signatures:
-                        node_signatures = []  # an array for each spine
-                    else:
-                        if len(node_signatures[0]) != len(node_signature_rows):
-                            raise Exception(f'Node signature mismatch: multiple spines with signatures at measure {len(rows)}')  # TODO better message
-                    node_signatures.append(node_signature_rows)
+                        node_signatures[signature_kind] = self.export_token(signature_node, options)
+                        if signature_kind not in signature_kinds:
+                            signature_kinds.append(signature_kind)
+                signatures_by_node.append(node_signatures)
 
-            if node_signatures:
-                for irow in range(len(node_signatures[0])):  # all spines have the same number of rows
-                    row = []
-                    for icol in range(len(node_signatures)):  #len(node_signatures) = number of spines
-                        row.append(node_signatures[icol][irow])
-                    rows.append(row)
+            for signature_kind in signature_kinds:
+                rows.append([node_signatures.get(signature_kind, '*') for node_signatures in signatures_by_node])
 
         else:
             from_stage = 0
